@@ -237,6 +237,9 @@ func (g *c19Gen) decConst() *sx {
 func (g *c19Gen) qNum(depth int) *sx {
 	if depth <= 0 || g.r.Intn(3) == 0 {
 		if g.r.Intn(3) == 0 {
+			if g.r.Intn(5) == 0 {
+				return g.nilDec()
+			}
 			return g.decConst()
 		}
 		return sxList("ref")
@@ -438,8 +441,14 @@ func c19Decimals(cols []c19Col) []c19Col {
 	return out
 }
 
+// a typed absent value (`nil` field value): data type and unit only
+func (g *c19Gen) nilDec() *sx { return sxList("nil", sxAtom("decimal"), sxAtom(g.unit())) }
+
 func (g *c19Gen) rNum(depth int, nums []c19Col) *sx {
 	if len(nums) == 0 || (depth <= 0 && g.r.Intn(4) == 0) {
+		if g.r.Intn(4) == 0 {
+			return g.nilDec()
+		}
 		return g.decConst()
 	}
 	if depth <= 0 || g.r.Intn(3) == 0 {
